@@ -850,6 +850,7 @@ def run(chk, F):
         "trees are reported as minimal (parent, slot, child) pairs. Leaf spelling (identifiers needing quotes, numerals, dates) "
         "is outside this model.")
     chk.assume("leaves are plain identifiers; numerals and date literals are excluded by the property statement")
+    chk.guard("leaf-names", "Display for Expr", lambda: leaf_names(chk, F))
     # leaf tokens: the symbol Display prints for each temperature scale must be one the lexer reads back as that scale
     import c10
     chk.guard("aliases", "lexer", lambda: c10.aliases(chk, F))
@@ -1009,3 +1010,49 @@ def brief(t):
     if k == "C":
         return "%s(%s)" % (t[1], ", ".join(brief(a) for a in t[2]))
     return str(t)
+
+
+def leaf_names(chk, F):
+    """Names are leaves of the printed text too: unit names from definition files can be keywords of the query grammar (`in`,
+    `to`, `per`) or contain characters the identifier rule does not accept, and property names likewise.  The printer must
+    write a name through a routine that checks it against the query lexer and quotes it otherwise; quoted strings must be
+    written with their quote character escaped."""
+    from facts import hir_walk
+    fn = [f for f in F.by_crate[CORE] if f.path == "<ast::expr::Expr as core::fmt::Display>::fmt::recurse"]
+    if len(fn) != 1:
+        raise AnchorLost("Display for Expr: recurse not found")
+    fn = fn[0]
+    h = F.hir_of(fn)
+    fk = "rink_core::<ast::expr::Expr as Display>::fmt::recurse"
+    ms = [m for m in hir_walk(h["body"]) if m.get("k") == "Match" and m.get("src") == "Normal" and any("Expr::Unit" in H.pat_str(a["pat"]) for a in m["arms"])]
+    if not ms:
+        raise AnchorLost("Display for Expr: match over Expr not found")
+
+    def checked_writer(call):
+        """the callee re-lexes the name (TokenIterator) before deciding how to write it"""
+        if call.get("k") != "Call" or call["f"].get("k") != "Path":
+            return None
+        pid = call["f"]["r"].get("id")
+        g = F.fns.get(pid)
+        if g is None:
+            return None
+        names = [t["callee"]["path"] for _, t in g.calls() if "callee" in t]
+        return g.path if any(n.endswith("text_query::TokenIterator::<'a>::new") or n.endswith("TokenIterator::new") for n in names) else None
+    for a in ms[0]["arms"]:
+        p = H.pat_str(a["pat"])
+        if p.startswith("Expr::Unit"):
+            b = a["body"]
+            w = checked_writer(b)
+            chk.decide(w is not None, "leaf-names", fk, "unit-name-written-checked", "%s:%d" % (fn.file, a["line"]),
+                       "unit names are written by %s, which re-lexes the name and quotes it unless it reads back as that one identifier" % w,
+                       "unit names are written verbatim (`%s`): `usgallon = 231 in^3` prints text in which `in` is the conversion keyword" % H.expr_str(b, 60))
+        elif p.startswith("Expr::Of"):
+            calls = [x for x in hir_walk(a["body"]) if checked_writer(x)]
+            chk.decide(bool(calls), "leaf-names", fk, "property-name-written-checked", "%s:%d" % (fn.file, a["line"]),
+                       "property names are written through the lexer-checked writer", "the property name of `x of y` is written verbatim")
+        elif p.startswith("Expr::Quote"):
+            txt = H.expr_str(a["body"], 400)
+            loops = [x for x in hir_walk(a["body"]) if x.get("k") in ("Loop", "Match") and x.get("src") in ("ForLoop", "ForLoopDesugar")]
+            chk.decide(bool(loops), "leaf-names", fk, "quoted-string-escaped", "%s:%d" % (fn.file, a["line"]),
+                       "quoted strings are written character by character (quote and backslash escaped)",
+                       "quoted strings are written verbatim between quotes: a `'` inside the string ends it when the text is read back")
